@@ -440,6 +440,15 @@ func c05Run(data []byte) (verdict string) {
 	for pass := 0; pass < 2; pass++ {
 		step = "animation.DecodeBytes"
 		an, err := animation.DecodeBytes(data)
+		if pass == 1 {
+			// the reader entry point (reads everything, then parses)
+			step = "animation.Decode"
+			an2, err2 := animation.Decode(noLen{bytes.NewReader(data)})
+			if (err == nil) != (err2 == nil) {
+				return fmt.Sprintf("animation.Decode(reader) and animation.DecodeBytes disagree on the same bytes: %v vs %v", err2, err)
+			}
+			an = an2
+		}
 		if err != nil {
 			break
 		}
@@ -644,7 +653,7 @@ func c05Key(id, desc string) string {
 func init() {
 	fw.Register(&fw.Check{
 		ID: "C05", Level: "fault_enumeration", Shards: shards16,
-		Rule:   "seed files (still corpus of C17 + animated corpus + ~60 generator-made VP8L files that no encoder emits: every backward-reference program, cache, meta-prefix and code-shape variant on narrow and wide pictures) x {every prefix; every byte position x 9-value boundary alphabet; every recognised little-endian size/dimension field x 15-value boundary alphabet; every chunk deleted / duplicated / swapped / re-tagged with each known FourCC; all pairs of deviations {0x00,0xff,b^1} inside the header region of one file per layout class} plus RIFF/chunk skeleton strings over the size alphabet; each input runs Decode, DecodeConfig, GetFeatures, image.Decode, the demuxer with all accessors, animation.DecodeBytes + DecodeFrames / DecodeFramesParallel + AnimDecoder to exhaustion twice; oracle: no panic, no process death, CPU cap, TotalAlloc bound from length + declared pixels, well-formed results; distinct = distinct input id",
+		Rule:   "seed files (still corpus of C17 + animated corpus + ~60 generator-made VP8L files that no encoder emits: every backward-reference program, cache, meta-prefix and code-shape variant on narrow and wide pictures) x {every prefix; every byte position x 9-value boundary alphabet; every recognised little-endian size/dimension field x 15-value boundary alphabet; every chunk deleted / duplicated / swapped / re-tagged with each known FourCC; all pairs of deviations {0x00,0xff,b^1} inside the header region of one file per layout class} plus RIFF/chunk skeleton strings over the size alphabet; each input runs Decode, DecodeConfig, GetFeatures, image.Decode, the demuxer with all accessors, animation.DecodeBytes and animation.Decode(reader) + DecodeFrames / DecodeFramesParallel + AnimDecoder to exhaustion twice; oracle: no panic, no process death, CPU cap, TotalAlloc bound from length + declared pixels, well-formed results; distinct = distinct input id",
 		Assume: []string{"inputs whose headers declare more than 2^22 (thorough 2^26) pixels within the documented caps are skipped (legitimately expensive) and counted", "allocation is measured as runtime TotalAlloc delta, CPU as process CPU time; CPU cap per input = 60 s + 4 us per declared pixel; no wall-clock oracle except a 600 s zero-CPU deadlock verdict", "worker count 2 at every site, pools reuse most-recent"},
 		Run: func(e *fw.Env, r *fw.Result) {
 			if len(e.Args) >= 1 && e.Args[0] == "worker" {
